@@ -37,7 +37,7 @@ func expectAP(r *Report, rule string, fn *ssa.Function, fc *FuncCtx, pkg, typ, f
 		return
 	}
 	p := fc.A.P
-	ap := fc.AP(st.Val)
+	ap := apInCaller(fc, st.Val, st.Parent())
 	cons := fmt.Sprintf("%s: %s.%s", p.FnName(fn), typ, field)
 	r.Check(strings.HasSuffix(ap, wantSuffix), rule, cons, p.InstrPos(st), "<- "+ap, fmt.Sprintf("%s is taken from %s, expected %s (%s)", field, ap, wantSuffix, why))
 }
@@ -130,6 +130,15 @@ func checkC06Fields(r *Report, p *Prog, rule string) {
 					expand(c, e, ph.Block().Preds[i], depth)
 				}
 				return
+			}
+			// a bound carried in a field of a local struct (validity.notBefore): each assignment of the field is an alternative
+			if ld, isLd := v.(*ssa.UnOp); isLd && ld.Op == token.MUL && depth < 3 {
+				if sts := localFieldStores(ld); len(sts) > 0 {
+					for _, s2 := range sts {
+						expand(c, s2.Val, s2.Block(), depth+1)
+					}
+					return
+				}
 			}
 			// a window computed by a side-effect-free helper: its returns are the alternatives
 			var call *ssa.Call
@@ -270,6 +279,13 @@ func checkC06Fields(r *Report, p *Prog, rule string) {
 				for _, rf := range *al.Referrers() {
 					if st, ok := rf.(*ssa.Store); ok && st.Addr == ssa.Value(al) {
 						copied = ofc.AP(st.Val)
+						// a copy of a template literal the maker built itself without Values (attr := requested; attr.Values =
+						// ...) carries nothing but what the literal names
+						if ld, ok := st.Val.(*ssa.UnOp); ok && ld.Op == token.MUL {
+							if base, ok := ld.X.(*ssa.Alloc); ok && literalWithoutField(base, "Values") {
+								copied = ""
+							}
+						}
 					}
 				}
 				if copied != "" {
@@ -971,7 +987,39 @@ func helperLitFields(p *Prog, fn *ssa.Function, pkg, typ, field string) []*ssa.S
 			out = append(out, litFields(h, pkg, typ)[field]...)
 		}
 	}
+	if len(out) == 0 {
+		// a part (Issuer, Status) of an object that an unexported helper of the function builds
+		for _, h := range helperRegion(p, fn, 2) {
+			if h == fn || seen[h] || !p.InLibrary(h) {
+				continue
+			}
+			seen[h] = true
+			out = append(out, litFields(h, pkg, typ)[field]...)
+		}
+	}
 	return out
+}
+
+// apInCaller: the access path of v, a value of a helper that fn calls (directly, at exactly one site), in fn's terms;
+// in the helper's own terms when the call site cannot be identified.
+func apInCaller(fc *FuncCtx, v ssa.Value, home *ssa.Function) string {
+	if home == nil || home == fc.Fn {
+		return fc.AP(v)
+	}
+	var site *ssa.Call
+	n := 0
+	for _, b := range fc.Fn.Blocks {
+		for _, in := range b.Instrs {
+			if c, ok := in.(*ssa.Call); ok && c.Call.StaticCallee() == home {
+				site = c
+				n++
+			}
+		}
+	}
+	if n == 1 {
+		return fc.inlineCtx(home, site.Call.Args, site).AP(v)
+	}
+	return fc.A.Ctx(home).AP(v)
 }
 
 // headOverwritten: base is the array or slice whose element 0 the store first writes; reports another element store
@@ -1008,4 +1056,36 @@ func headOverwritten(p *Prog, base ssa.Value, first *ssa.Store) string {
 		}
 	}
 	return ""
+}
+
+// literalWithoutField: the local struct is built field by field in its function (never assigned as a whole, address not
+// passed on) and the named field is never stored: it is the zero value in every copy.
+func literalWithoutField(al *ssa.Alloc, field string) bool {
+	if al.Referrers() == nil {
+		return false
+	}
+	for _, rf := range *al.Referrers() {
+		switch u := rf.(type) {
+		case *ssa.FieldAddr:
+			for _, r2 := range *u.Referrers() {
+				st, ok := r2.(*ssa.Store)
+				if !ok {
+					if _, isLoad := r2.(*ssa.UnOp); isLoad {
+						continue
+					}
+					if _, isDbg := r2.(*ssa.DebugRef); isDbg {
+						continue
+					}
+					return false
+				}
+				if st.Addr != ssa.Value(u) || fieldName(u.X.Type(), u.Field) == field {
+					return false
+				}
+			}
+		case *ssa.UnOp, *ssa.DebugRef:
+		default:
+			return false
+		}
+	}
+	return true
 }
